@@ -506,8 +506,8 @@ func c05Run(r *fw.R, d c05Desc) {
 	}
 
 	// ---- the library side
-	var wg sync.WaitGroup      // everything on the library side
-	var wgW sync.WaitGroup     // writers and pingers only
+	var wg sync.WaitGroup  // everything on the library side
+	var wgW sync.WaitGroup // writers and pingers only
 	ops := make([][]*c05Op, d.Writers)
 	for w := range ops {
 		ops[w] = make([]*c05Op, d.PerW)
